@@ -80,7 +80,7 @@ def check(ctx):
                               {'init': T.pretty(u['init'])[:300]})
             pre = u['pre']
             want = T.vupd(pre, ls.idx, div(sel(pre, ls.idx), sel(pre, sub(n, ONE))))
-            rng_ok = ls.node.op == 'rangefor' and ls.lo == ZERO and ls.hi == n
+            rng_ok = ls.node.op in ('rangefor', 'for') and ls.lo == ZERO and ls.hi == n
             if u['next'] == want and rng_ok and ls.regular:
                 ctx.holds('R2.normalised', '%s:discrete_distribution' % ls.node.where(),
                           'every cumulative sum is divided by the last one, in increasing order (the '
